@@ -656,6 +656,94 @@ pub fn machinery(msg: &str) -> ! {
     std::process::exit(3);
 }
 
+/// Dictionary of the byte-string and string literals that occur in the source of the crates under
+/// test (read from /repo's working tree at run time). A parser that special-cases a magic value can
+/// only compare its input with a constant it carries, so "one input per literal in the code" closes
+/// the gap that no enumeration of 9-byte fields could: field alphabets for names, tags and magic
+/// numbers are extended with these values.
+pub fn source_dictionary() -> &'static Vec<Vec<u8>> {
+    static DICT: std::sync::OnceLock<Vec<Vec<u8>>> = std::sync::OnceLock::new();
+    DICT.get_or_init(|| {
+        let mut out: std::collections::BTreeSet<Vec<u8>> = std::collections::BTreeSet::new();
+        let mut stack: Vec<std::path::PathBuf> = ["nexrad", "nexrad-model", "nexrad-decode", "nexrad-data"].iter().map(|c| std::path::PathBuf::from(format!("/repo/{c}/src"))).collect();
+        while let Some(p) = stack.pop() {
+            if p.is_dir() {
+                if let Ok(rd) = std::fs::read_dir(&p) {
+                    for e in rd.flatten() {
+                        stack.push(e.path());
+                    }
+                }
+            } else if p.extension().map(|e| e == "rs").unwrap_or(false) {
+                if let Ok(text) = std::fs::read(&p) {
+                    scan_literals(&text, &mut out);
+                }
+            }
+        }
+        let mut v: Vec<Vec<u8>> = out.into_iter().filter(|l| (2..=24).contains(&l.len())).collect();
+        v.sort_by(|a, b| a.len().cmp(&b.len()).then(a.cmp(b)));
+        v.truncate(1500);
+        v
+    })
+}
+
+fn scan_literals(t: &[u8], out: &mut std::collections::BTreeSet<Vec<u8>>) {
+    let mut i = 0;
+    while i < t.len() {
+        // char literals that contain a quote
+        if t[i] == b'\'' && i + 2 < t.len() && (t[i + 1] == b'"' && t[i + 2] == b'\'') {
+            i += 3;
+            continue;
+        }
+        if t[i] == b'\'' && i + 3 < t.len() && t[i + 1] == b'\\' && t[i + 2] == b'"' && t[i + 3] == b'\'' {
+            i += 4;
+            continue;
+        }
+        if t[i] != b'"' {
+            i += 1;
+            continue;
+        }
+        let mut j = i + 1;
+        let mut lit: Vec<u8> = Vec::new();
+        let mut closed = false;
+        while j < t.len() {
+            match t[j] {
+                b'"' => {
+                    closed = true;
+                    break;
+                }
+                b'\\' if j + 1 < t.len() => {
+                    j += 1;
+                    match t[j] {
+                        b'n' => lit.push(b'\n'),
+                        b'r' => lit.push(b'\r'),
+                        b't' => lit.push(b'\t'),
+                        b'0' => lit.push(0),
+                        b'x' if j + 2 < t.len() => {
+                            let h = std::str::from_utf8(&t[j + 1..j + 3]).ok().and_then(|h| u8::from_str_radix(h, 16).ok());
+                            lit.push(h.unwrap_or(b'?'));
+                            j += 2;
+                        }
+                        c => lit.push(c),
+                    }
+                }
+                b'\n' if lit.len() > 200 => break,
+                c => lit.push(c),
+            }
+            j += 1;
+        }
+        if closed && !lit.is_empty() && lit.len() <= 64 {
+            out.insert(lit.clone());
+            // the pieces between format placeholders and separators are candidates too
+            for piece in lit.split(|b| matches!(*b, b'{' | b'}' | b' ' | b'/' | b':' | b',')) {
+                if piece.len() >= 2 {
+                    out.insert(piece.to_vec());
+                }
+            }
+        }
+        i = j + 1;
+    }
+}
+
 /// Debug-formats `x` in every formatter mode a caller can select (`{:?}`, the pretty / alternate
 /// form used by `{:#?}` and `dbg!`, width, precision, sign, hex flags). A hand-written `Debug` impl
 /// may branch on the formatter's flags, so the mode is an input dimension of "formatting for
